@@ -154,8 +154,8 @@ def header_and_warm_cache_io(d):
         return [(o, l) for o, l in f.log if o >= foot]
     def data_reads(f):
         return [(o, l) for o, l in f.log if 4096 * sp.nhb <= o < foot]
-    for warm in (False, True):
-        f = CountingFile(p)
+    for warm, backend in ((False, 'file'), (True, 'file'), (False, 'blob'), (True, 'blob')):
+        f = CountingFile(p) if backend == 'file' else CountingBlob(p)
         with SgzReader(f) as r:
             if warm:
                 r.get_tracefield_values(189)
@@ -163,8 +163,8 @@ def header_and_warm_cache_io(d):
                 f.log.clear()
                 r.gen_trace_header(t)
                 fr = footer_reads(f)
-                inp = {'file': label, 'call': 'gen_trace_header', 'args': [t], 'after': 'get_tracefield_values(189)' if warm else 'open'}
-                R.case(('hdr-io', warm, t), sample=inp)
+                inp = {'file': label, 'call': 'gen_trace_header', 'args': [t], 'after': 'get_tracefield_values(189)' if warm else 'open', 'backend': backend}
+                R.case(('hdr-io', warm, t, backend), sample=inp)
                 want = [(foot + k * sp.stride + 4 * t, 4) for k in range(sp.nha)]
                 if sorted(fr) != sorted(want) and not (warm and set(fr) <= set(want)):
                     R.violation('oracle', inp, f'regenerating one trace header read {len(fr)} range(s), {sum(l for _, l in fr)} bytes from the footer; '
@@ -247,7 +247,8 @@ try:
                 R.notes.append('irregular survey with several holes was not written through the irregular route (known finding D27 of C08): skipped')
             else:
                 nlive = int(present.sum())
-                extra = [('get_trace', (t,)) for t in range(nlive)] + [('get_trace', (t, 1, ns_ - 1)) for t in range(0, nlive, 3)]
+                extra = [('get_trace', (t,)) for t in range(nlive)] + [('get_trace', (t, 1, ns_ - 1)) for t in range(0, nlive, 3)] + \
+                        [('get_trace', (t,)) for t in (-1, -2, -nlive, -nlive - 1, -1000, nlive, nlive + 1, n_il_ * n_xl_ - 1, n_il_ * n_xl_)]
                 R.count('irregular file with several holes')
                 run_file(p, f'irregular {n_il_}x{n_xl_}x{ns_} holes={int((~present).sum())} bpv={bpv_}', 6 if quick else 20, extra=extra)
         finally:
